@@ -729,6 +729,7 @@ func c19(r *engine.Run) {
 	c19MaxSlots = 2
 	r.SetBudget(time.Duration(r.Pick(75, 1000)) * time.Second)
 	stateViol := engine.NewCounter()
+	lockOutcomes := engine.NewCounter()
 	var fmu sync.Mutex
 	var found []engine.Failure
 	fail := func(f engine.Failure) {
@@ -812,9 +813,18 @@ func c19(r *engine.Run) {
 		c19MaxSlots = 2
 	}
 
+	partI := c19Interleave(r, fail, lockOutcomes)
+
 	// report in a deterministic order (shortest history first), whatever the worker scheduling was
+	hops := func(c interface{}) []c19Op {
+		if h, ok := c.([]c19Op); ok {
+			return h
+		}
+		ic := c.(c19iCase)
+		return append(append(append([]c19Op{}, ic.Base...), ic.A, ic.B), make([]c19Op, 8)...) // interleavings after the plain histories
+	}
 	sort.SliceStable(found, func(i, j int) bool {
-		a, b := found[i].Case.([]c19Op), found[j].Case.([]c19Op)
+		a, b := hops(found[i].Case), hops(found[j].Case)
 		if len(a) != len(b) {
 			return len(a) < len(b)
 		}
@@ -860,6 +870,8 @@ func c19(r *engine.Run) {
 		delete(c2, "outcome_histogram") // merged into the main histogram
 		cov["second_exploration_3_wallets_depth_3"] = c2
 	}
+	partI["pair_histogram"] = lockOutcomes.Map()
+	cov["lock_boundary_interleavings"] = partI
 	cov["max_wallets_per_history"] = c19MaxSlots
 	cov["real_operations_executed_incl_replays"] = atomic.LoadInt64(&c19Transitions)
 	cov["state_oracle_violation_histogram"] = stateViol.Map()
